@@ -325,6 +325,29 @@ class EqSpec(object):
                 pass
         if eq != (b == a):
             bad.append(('symm', '== is not symmetric'))
+        # a tree that has been observed (compared, iterated, serialised) and grows afterwards is the
+        # tree it would be had it never been observed
+        try:
+            a.to_bytes()
+        except Exception:   # noqa
+            pass
+        list(a)
+        fresh = domadapt.build(t)
+        for x in (a, fresh):
+            if x.changes:
+                x.changes[-1].add_file()
+            else:
+                x.add_change()
+        if not (a == fresh) or (a != fresh):
+            bad.append(('grown', 'a tree grown after it was compared / serialised differs from the same tree grown before'))
+        if a == domadapt.build(t):
+            bad.append(('grown', 'a tree grown by one file / change after it was compared still equals the tree without it'))
+        try:
+            b1, b2 = a.to_bytes(), fresh.to_bytes()
+        except Exception:   # noqa
+            b1 = b2 = None
+        if b1 != b2:
+            bad.append(('grown', 'a tree grown after it was serialised serialises differently from the same tree grown before'))
         return [{'what': w, 'kind': k, 'perturbation': kind, 'a': domadapt.enc_tree(t), 'b': domadapt.enc_tree(u)} for k, w in bad]
 
     def classify(self, v):
